@@ -1009,10 +1009,15 @@ pub fn run_c05(run: &mut Run) -> Stats {
     let alpha: [u8; 8] = [b'"', b'W', b'/', b'v', b'1', b' ', 0xff, b','];
     let maxlen = tier.pick(4, 6);
     let mut cur: Vec<Vec<u8>> = vec![vec![]];
-    for _ in 0..maxlen {
+    for level in 1..=maxlen {
         let mut next = Vec::new();
         for c in &cur {
             for a in alpha {
+                // (the comma joins the alphabet up to length 5; length 6 stays with the other seven
+                // symbols so that the thorough tier still finishes inside its wall cap)
+                if level >= 6 && (a == b',' || c.contains(&b',')) {
+                    continue;
+                }
                 let mut v = c.clone();
                 v.push(a);
                 next.push(v);
@@ -1082,7 +1087,7 @@ pub fn run_c05(run: &mut Run) -> Stats {
             }
         }
     }
-    run.rule = "entity etag {absent, strong, weak} x mtime {absent, whole, sub-second} x If-Range {absent, same strong, same opaque weak, different, case/prefix/suffix/unterminated variants, dates LM-1/LM/LM+1 in three formats, every byte string of length <= n over {\" W / v 1 SP 0xff ,}, every entity tag followed / preceded by list syntax (comma, blanks, semicolon, a second tag)} x Range {one satisfiable, two (multipart zone), two (200 zone), unsatisfiable, absent} x GET/HEAD x L in {10,400}; the short and tag-like If-Range values also next to a passing If-Match ('*', the entity's tag) and a non-matching If-None-Match; oracle: 206/416 only if If-Range is absent or byte-identical to a strong entity etag (exact-date match admitted either way), and then exactly what C03 prescribes. non-trivial = distinct (entity validators, If-Range, Range, method, L) with an If-Range header".into();
+    run.rule = "entity etag {absent, strong, weak} x mtime {absent, whole, sub-second} x If-Range {absent, same strong, same opaque weak, different, case/prefix/suffix/unterminated variants, dates LM-1/LM/LM+1 in three formats, every byte string of length <= n over {\" W / v 1 SP 0xff ,} (the comma up to length 5), every entity tag followed / preceded by list syntax (comma, blanks, semicolon, a second tag)} x Range {one satisfiable, two (multipart zone), two (200 zone), unsatisfiable, absent} x GET/HEAD x L in {10,400}; the short and tag-like If-Range values also next to a passing If-Match ('*', the entity's tag) and a non-matching If-None-Match; oracle: 206/416 only if If-Range is absent or byte-identical to a strong entity etag (exact-date match admitted either way), and then exactly what C03 prescribes. non-trivial = distinct (entity validators, If-Range, Range, method, L) with an If-Range header".into();
     run.bounds = json!({"if_range_values": if_ranges.len(), "max_arbitrary_len": maxlen});
     let ev = Eval { prop: &run.prop.clone(), extra_polls: 1 };
     par_for(outer.len() as u64, threads(), |i, st| {
